@@ -44,12 +44,14 @@ void h_aggverify(void) {
     verif_c17_xo_n = 0; verif_c17_fin_n = 0; verif_c17_bad = 0; verif_c17_rej = 0; verif_c17_whit = 0;
     len_ok = (W(alen) == 32 * (W(n) + 1));
     verif_c17_gk = gk; verif_c17_gk_ok = 1; c17_exp_r = 0; c17_exp_px = 0; c17_exp_py = 0; c17_exp_s = 0;
+#ifndef C17_EARLY   /* the early-exit variant never reaches the loop: no expectation about array contents is needed (and no symbolic-index reads) */
     if (len_ok && gk < n) FOR_IDX(k, gk) { c17_exp_r = be256(aggsig + 32 * k); c17_exp_px = c17_le256(pks[k].data); c17_exp_py = c17_le256(pks[k].data + 32); verif_c17_gk_ok = (c17_exp_r < p); }
     if (len_ok) FOR_IDX(k, n) sv = be256(aggsig + 32 * k);
     /* expected byte at stream position wpos of the running hash: signature t = (wpos-64)/96, r_t || be(x(pk_t)) || m_t */
     verif_c17_wpos = wpos; verif_c17_wexp = 0;
     if (len_ok && wpos >= 64 && wpos < 64 + 96 * (uint64_t)n) { size_t t = (wpos - 64) / 96, o = (wpos - 64) % 96;
         FOR_IDX(k, t) verif_c17_wexp = o < 32 ? aggsig[32 * k + o] : o < 64 ? pks[k].data[31 - (o - 32)] : msgs[32 * k + (o - 64)]; }
+#endif
 
 #ifdef C17_EARLY
     /* EARLY-EXIT variant: only calls the specification rejects before the loop (misuse or wrong length), n and the length unbounded;
@@ -70,6 +72,7 @@ void h_aggverify(void) {
         if (n > NMAX) REACH("aggverify huge n");
 #endif
         return; }
+#ifndef C17_EARLY
     if (ret == 1) {
         __CPROVER_assert(verif_c17_xo_n == n && verif_c17_bad == 0 && verif_c17_rej == 0, "C17 aggverify: accept => n lifts, each of exactly x = r_i with even y, each successful; each challenge on (r_i, m_i, 32, pk_i); e_i*P_i, z_i = digest_i mod n (i != 0); hash bytes as specified");
         __CPROVER_assert(verif_c17_fin_n == n && c17_init_n == 1, "C17 aggverify: one randomizer per signature, one running hash initialised once");
@@ -93,4 +96,5 @@ void h_aggverify(void) {
     if (ret == 0 && g_gen_n == 0 && verif_c17_xo_n == n && verif_c17_rej == 0) REACH("aggverify rejects s >= n");
     if (ret == 0 && verif_c17_rej == 1 && n > 1) REACH("aggverify rejects on a lift verdict");
     if (ret == 0 && gk < n && n > 2 && gk == 1 && c17_exp_r >= p) REACH("aggverify rejects r_1 >= p");
+#endif
 }
